@@ -24,9 +24,17 @@ def main():
     except ImportError as ex:
         print("no check for %s: %s" % (pid, ex), file=sys.stderr)
         sys.exit(2)
-    v = vlib.Verdict(pid, a.tier, seed)
+    tier = a.tier
+    replay = a.replay
+    if replay and not getattr(mod, "REPLAYS_CASES", True) is False and pid in ("C04", "C10", "C18"):
+        # these checks re-run the recorded configuration (seed and tier of the failing run) instead of single cases
+        import json as _j
+        with open(replay) as f:
+            rp = _j.load(f)
+        seed = int(rp.get("seed", seed)); tier = rp.get("tier", tier); replay = None
+    v = vlib.Verdict(pid, tier, seed)
     try:
-        level = mod.run(v, a.tier, seed, a.replay)
+        level = mod.run(v, tier, seed, replay)
     except vlib.Infra as ex:
         print("INFRASTRUCTURE ERROR (%s): %s" % (pid, ex), file=sys.stderr)
         sys.exit(2)
@@ -36,7 +44,7 @@ def main():
         sys.exit(2)
     rc = v.finish(level)
     print("%s %s tier=%s wall=%.1fs violations=%d known=%d" % (
-        pid, "HELD" if rc == 0 else "VIOLATED", a.tier, __import__("time").time() - v.t0, len(v.violations), len(v.known_hit)))
+        pid, "HELD" if rc == 0 else "VIOLATED", tier, __import__("time").time() - v.t0, len(v.violations), len(v.known_hit)))
     sys.exit(rc)
 
 
